@@ -3677,11 +3677,15 @@ class __implementations__:
 
     @implements(numpy.linalg.eig)
     def eig(a):
+        if a.ndim < 2 or a.shape[-2] != a.shape[-1]:
+            raise ValueError('Last 2 dimensions of the array must be square')
         return _Wrapper(functools.partial(__implementations__._eig, False, 0), a, shape=a.shape[:-1], dtype=complex), \
                _Wrapper(functools.partial(__implementations__._eig, False, 1), a, shape=a.shape, dtype=complex)
 
     @implements(numpy.linalg.eigh)
     def eigh(a):
+        if a.ndim < 2 or a.shape[-2] != a.shape[-1]:
+            raise ValueError('Last 2 dimensions of the array must be square')
         return _Wrapper(functools.partial(__implementations__._eig, True, 0), a, shape=a.shape[:-1], dtype=float), \
                _Wrapper(functools.partial(__implementations__._eig, True, 1), a, shape=a.shape, dtype=float if a.dtype != complex else complex)
 
